@@ -12,6 +12,17 @@
    merge that found `new` empty) — off-protocol insertions reach insert_unique_unchecked with duplicates.  The laws
    P1-P5 are therefore stated here over protocol histories (brun / trun).
 
+   Program level (Byods/TrRelProgram.v): the binary and the ternary model are packaged as `provider tuple` of
+   Byods/Provider.v (through the generic adapter Byods/TrRelAdapter.v from pairs / (key, pair) to list Z), the record
+   Engine/ProvLaws.engine_laws is proved for them with cl = transitive closure (per key), and
+   Engine/ProvProofsW.prun_plan_correct_w gives c11_program_binary / c11_program_ternary: the engine model with the
+   tagged relation computes the LEAST MODEL OF THE PROGRAM EXTENDED WITH THE EXPLICIT RULE r(x,z) <-- r(x,y), r(y,z)
+   (both directions: least_model_cl with tc = least_model of P ++ [tc_rule]).  ProvLaws.guarded histories contain the
+   protocol histories of brun (c11_protocol_histories_are_guarded); at the level of sets the trrel model meets the
+   laws on all histories.  What remains tied rather than proved: the engine model Engine/EvalProv.v reads the
+   provider through p_read (law P4 relates the real keyed views to it: c11_P4_views, c11_ternary_rev_views_exact),
+   and code generation itself (PROG half of the tie).
+
    The lemmas named `_before_fix` describe the behaviour before the repairs, as statements about the model with the old
    parameter values; they are not claims about the current code. *)
 From Coq Require Import List ZArith Bool.
@@ -19,6 +30,9 @@ From AV Require Import Byods.TrRelModel.
 From AV Require Import Byods.TrRelProofs.
 From AV Require Import Byods.TrRelTernary.
 From AV Require Byods.Closure.
+From AV Require Import Engine.Core Engine.Sem Engine.Validate Engine.Naive Engine.Interface.
+From AV Require Import Byods.Provider Engine.EvalProv Engine.InterfaceProv Engine.ProvLaws.
+From AV Require Import Byods.TrRelAdapter Byods.TrRelProgram.
 Import ListNotations.
 Open Scope Z_scope.
 
@@ -53,6 +67,43 @@ Theorem c11_ternary_rev_views_exact : forall b ops st ins,
   (forall x2, exists l, tv_i2_get1 v x2 = Some l /\ forall t, In t l <-> has v t /\ snd t = x2) /\
   (forall x12, exists l, tv_i12_get1 v x12 = Some l /\ forall t, In t l <-> has v t /\ (snd (fst t), snd t) = x12).
 Proof. exact rev_views_exact. Qed.
+
+(* ================= program level ================= *)
+
+(* the seven engine laws of Engine/ProvLaws.v hold for the packaged providers, cl = transitive closure (per key) *)
+Theorem c11_engine_laws_binary : closure_op tuple tc2 /\ cl_arity tc2 2 /\ engine_laws trrel_binary tc2.
+Proof. exact (conj tc2_closure_op (conj tc2_arity trrel_binary_engine_laws)). Qed.
+Theorem c11_engine_laws_ternary : forall h, closure_op tuple tc3 /\ cl_arity tc3 3 /\ engine_laws (trrel_ternary h) tc3.
+Proof. intros h. exact (conj tc3_closure_op (conj tc3_arity (trrel_ternary_engine_laws h))). Qed.
+
+(* a program whose relation r0(T,T) is tagged #[ds(trrel)], run by the engine model on the plan the macro produced
+   (validate), computes the least model of the program extended with  r0(x,z) <-- r0(x,y), r0(y,z) *)
+Theorem c11_program_binary : forall I swap r0 arities P pl fuel F0 st,
+  In (r0, 2%nat) arities -> arities_functional arities -> wf_facts arities F0 = true -> no_agg P = true ->
+  (forall f, In f F0 -> fst f <> r0) -> validate arities P pl = true ->
+  prun_plan I swap trrel_binary r0 fuel pl F0 = Some st ->
+  least_model I (P ++ [tc_rule r0]) F0 (pfacts trrel_binary r0 st).
+Proof. exact trrel_program_binary. Qed.
+
+(* the ternary form r0(K,T,T): the least model of the program extended with  r0(k,x,z) <-- r0(k,x,y), r0(k,y,z) *)
+Theorem c11_program_ternary : forall h I swap r0 arities P pl fuel F0 st,
+  In (r0, 3%nat) arities -> arities_functional arities -> wf_facts arities F0 = true -> no_agg P = true ->
+  (forall f, In f F0 -> fst f <> r0) -> validate arities P pl = true ->
+  prun_plan I swap (trrel_ternary h) r0 fuel pl F0 = Some st ->
+  least_model I (P ++ [tc_rule3 r0]) F0 (pfacts (trrel_ternary h) r0 st).
+Proof. exact trrel_program_ternary. Qed.
+
+(* least_model_cl with the closure operators used above IS the least model with the explicit rule (both directions) *)
+Theorem c11_closure_operator_is_the_rule : forall I P r0 F0 M,
+  (least_model_cl I P tc2 r0 F0 M <-> least_model I (P ++ [tc_rule r0]) F0 M) /\
+  (least_model_cl I P tc3 r0 F0 M <-> least_model I (P ++ [tc_rule3 r0]) F0 M).
+Proof. intros. split; [apply least_model_tc2_iff | apply least_model_tc3_iff]. Qed.
+
+(* the protocol histories of c11_closure are guarded histories of the packaged provider *)
+Theorem c11_protocol_histories_are_guarded : forall b ops h st ins st' ins',
+  guardedT _ (PB b) h -> run _ (PB b) h = st -> brun b st ins ops = Some (st', ins') ->
+  exists h', guardedT _ (PB b) (h ++ h') /\ run _ (PB b) (h ++ h') = st'.
+Proof. exact brun_is_guarded. Qed.
 
 (* ================= the merge (binary form) ================= *)
 
@@ -188,6 +239,8 @@ Example c11_example_ternary :
 Proof. vm_compute. reflexivity. Qed.
 
 Print Assumptions c11_closure. Print Assumptions c11_closure_shared. Print Assumptions c11_ternary_closure. Print Assumptions c11_ternary_rev_views_exact.
+Print Assumptions c11_engine_laws_binary. Print Assumptions c11_engine_laws_ternary. Print Assumptions c11_program_binary.
+Print Assumptions c11_program_ternary. Print Assumptions c11_closure_operator_is_the_rule. Print Assumptions c11_protocol_histories_are_guarded.
 Print Assumptions trrel_merge_closure. Print Assumptions c11_merge_exact. Print Assumptions c11_merge_defined.
 Print Assumptions c11_histories_never_stuck. Print Assumptions c11_P2_reads_are_cl. Print Assumptions c11_P1_insert.
 Print Assumptions c11_P3_total_is_previous_reads. Print Assumptions c11_P4_views. Print Assumptions c11_P5_contains.
